@@ -479,6 +479,25 @@ func TestFixedSets(t *testing.T) {
 		{&Def{Name: "IF", Kind: "strtoken", Text: "if", Chars: "if", Literal: true}, pat("ID", word)},
 		{&Def{Name: "IF", Kind: "strtoken", Text: "if", Chars: "if", Literal: true}, lit("i"), pat("ID", word), pat("I2", &ref.Pat{K: "cat", Subs: []*ref.Pat{l('i'), {K: "grp", Subs: []*ref.Pat{l('f')}}}})},
 	}
+	// patterns made of literal characters and escapes only (escaped backslashes next to plain characters), a pattern
+	// that matches nothing before others, zero-padded counts
+	word2 := func(w string) *ref.Pat {
+		c := &ref.Pat{K: "cat"}
+		for _, r := range w {
+			c.Subs = append(c.Subs, l(r))
+		}
+		return c
+	}
+	nothing := &ref.Pat{K: "br", Neg: true, Items: []*ref.Pat{{K: "rng", R: 0x01, R2: 0x7F}, {K: "lit", R: 0}}}
+	padded := &ref.Pat{K: "q", Subs: []*ref.Pat{{K: "br", Items: []*ref.Pat{{K: "rng", R: '0', R2: '9'}}}}, Min: 10, Max: 10, QForm: "{010}"} // ten, not eight
+	plain8 := &ref.Pat{K: "q", Subs: []*ref.Pat{{K: "br", Items: []*ref.Pat{{K: "rng", R: '0', R2: '9'}}}}, Min: 8, Max: 8, QForm: "{8}"}
+	sets = append(sets,
+		[]*Def{pat("PATH", word2(`C:\tmp`)), pat("BS", word2(`\\`)), pat("AB", word2(`a\b`)), lit("C:tmp"), lit(`\`)},
+		[]*Def{pat("DOT", word2(`a.b*`)), pat("WORD", word), lit("a.b*")},
+		[]*Def{pat("ID", word), pat("UC", nothing), pat("NUM", &ref.Pat{K: "q", Subs: []*ref.Pat{{K: "br", Items: []*ref.Pat{{K: "rng", R: '0', R2: '9'}}}}, Min: 1, Max: -1, QForm: "+"}), pat("UP", &ref.Pat{K: "q", Subs: []*ref.Pat{{K: "br", Items: []*ref.Pat{{K: "rng", R: 'A', R2: 'Z'}}}}, Min: 1, Max: -1, QForm: "+"})},
+		[]*Def{pat("UC", nothing), pat("ID", word), lit("if")},
+		[]*Def{pat("OCT", padded), pat("SEVENS", plain8), lit("x")},
+	)
 	for _, defs := range sets {
 		runSet(t, defs, printSpec(nil, defs))
 	}
